@@ -288,15 +288,17 @@ def get_one(I, ind, seq, default, node):
         return I.getitem(seq, ind, node)
     if isinstance(ind, Leaf) and isinstance(seq, DictS):
         alts = list(seq.items.values())
+        labels = [f"key=={kk!r}" for kk in seq.items]
         if default is not None:
             alts.append(default)
-        return Choice(alts)
+            labels.append("key not in table")
+        return Choice(alts, labels)
     return Top("get with unknown index")
 
 
 def map_dict(I, d, f, node, track_collisions=False):
     if isinstance(d, Choice):
-        return Choice([map_dict(I, x, f, node, track_collisions) for x in d.alts])
+        return Choice([map_dict(I, x, f, node, track_collisions) for x in d.alts], d.labels)
     if not isinstance(d, DictS):
         if isinstance(d, Top):
             return d
@@ -314,7 +316,7 @@ def map_dict(I, d, f, node, track_collisions=False):
 
 def filter_dict(I, name, pred, d, node):
     if isinstance(d, Choice):
-        return Choice([filter_dict(I, name, pred, x, node) for x in d.alts])
+        return Choice([filter_dict(I, name, pred, x, node) for x in d.alts], d.labels)
     if not isinstance(d, DictS):
         if isinstance(d, Top):
             return d
@@ -516,7 +518,7 @@ def call_method(I, recv, name, args, kwargs, node):
             if isinstance(k, (Leaf, Top)):
                 if t is not None:
                     t["hits"].update(recv.items)
-                return Choice(list(recv.items.values()) + [default])
+                return Choice(list(recv.items.values()) + [default], [f"key=={kk!r}" for kk in recv.items] + ["key not in table"])
             if isinstance(k, Choice):
                 return Choice([call_method(I, recv, name, [x] + list(args[1:]), kwargs, node) for x in k.alts])
             return Top("dict.get with unknown key")
